@@ -47,6 +47,23 @@ class Family:
             e.violation = ("SLICE-TRUNC", getattr(interp, "_cur_qual", "index table"), "the prefix `[:%s]` is taken of an index table with %s entries: numpy truncates a slice that runs past the end WITHOUT an error, so on a grid where %s > %s the table silently has fewer entries than the boundary has faces (the missing faces are never given a boundary state)" % (A.show(m), A.show(self.count), A.show(m), A.show(self.count)),
                            "slice-trunc", {"C20", "C15", "C14", "C01", "C03", "C16", "C11", "C13"})
             raise e
+        if isinstance(idx, slice) and idx.step is not None and idx.stop is None:
+            # table[s0::st] of a table whose length is a whole number of periods st, 0 <= s0 < st: one entry per period
+            st = interp.lift(idx.step)
+            s0 = interp.lift(idx.start) if idx.start is not None else A.const(0)
+            per = A.div(self.count, st)
+            if not per.den and A.sign(s0) in ("+", ">=0", "0") and A.sign(A.sub(A.sub(st, s0), A.const(1))) in ("+", ">=0", "0"):
+                return Family(A, per, A.mul(self.a, st), A.add(self.b, A.mul(self.a, s0)))
+            raise AnalysisError("strided subscript of an index table that is not a whole number of periods")
+        if isinstance(idx, slice) and idx.step is None and idx.stop is None and idx.start is not None:
+            s0 = interp.lift(idx.start)
+            if A.sign(s0) == "-":
+                # table[-k:]: the last k entries (k >= 1 is the interpreter's NEG-ZERO-SLICE obligation)
+                k = A.neg(s0)
+                if A.sign(A.sub(self.count, k)) in ("+", ">=0", "0"):
+                    return Family(A, k, self.a, A.add(self.b, A.mul(self.a, A.sub(self.count, k))))
+            elif A.sign(s0) in ("+", ">=0", "0") and A.sign(A.sub(self.count, s0)) in ("+", ">=0", "0"):
+                return Family(A, A.sub(self.count, s0), self.a, A.add(self.b, A.mul(self.a, s0)))
         raise AnalysisError("unsupported subscript of an index table")
 
     def _fd_binop(self, op, other, reflected, interp):
@@ -211,7 +228,8 @@ class Engine:
         A.fold_enabled = False
         self.dom = GvnDomain(A)
         self.it = Interp(proj, self.dom)
-        self.nx, self.ny = A.sym("nx", positive=True), A.sym("ny", positive=True)
+        # grid sizes are integers >= 2 here (the assumption every 2D check prints): strictly above 1
+        self.nx, self.ny = A.sym("nx", positive=True, gt=1), A.sym("ny", positive=True, gt=1)
         self.loops = {}          # loop atom id -> (name, lo, hi)
         self.relations = []
         self.cur = "?"
@@ -238,6 +256,9 @@ class Engine:
         return 0
 
     def arange(self, args, kwargs):
+        if len(args) == 2 and not kwargs:
+            a, b = self.it.lift(args[0]), self.it.lift(args[1])
+            return Family(self.alg, self.alg.sub(b, a), self.alg.const(1), a)
         return Family(self.alg, self.it.lift(args[0]), self.alg.const(1), self.alg.const(0))
 
     def roll(self, args, kwargs):
